@@ -119,7 +119,7 @@ def check_predict(chk, rep, repo, cls, fields):
         else:
             rep.fn("DENSITY-sum", fn, "density accumulates exp(-d_r / stored constant) over r < k", False, detail)
     # result order
-    rets = [e for e in w.events if e.kind == "return"]
+    rets = [e for e in w.events if e.kind == "return" and e.fn is w.entry]
     okr = False
     if len(rets) == 1:
         v = rets[0].value
